@@ -765,11 +765,14 @@ func TestReplay(t *testing.T) {
 
 var nis = []string{"DEFAULT", "VRF-A", ""}
 var strs = map[string][]string{
-	"prefix4": {"1.0.0.0/8", "2.2.0.0/16", ""},
-	"prefix6": {"2001:db8::/32", "::/0"},
-	"ip":      {"192.0.2.1", "2001:db8::1", ""},
-	"mac":     {"00:00:5e:00:53:01", "02:aa:bb:cc:dd:ee"},
-	"intf":    {"eth0", "Ethernet1/2"},
+	// strings are opaque to the builders: besides canonical spellings the pools hold valid
+	// values that a normaliser would rewrite (host bits set, upper-case or zero-padded hex,
+	// uncompressed zero runs, IPv4-mapped, surrounding blanks) and one malformed value each
+	"prefix4": {"1.0.0.0/8", "2.2.0.0/16", "", "10.1.1.7/24", "192.0.2.1/32", "010.1.1.0/24", " 1.0.0.0/8"},
+	"prefix6": {"2001:db8::/32", "::/0", "2001:DB8::/32", "2001:0db8:0:0::/64", "2001:db8::1/64", "::ffff:10.0.0.0/104", "2001:db8:0:0:0:0:0:0/32"},
+	"ip":      {"192.0.2.1", "2001:db8::1", "", "2001:DB8::1", "2001:0db8::0001", "::ffff:192.0.2.1", "192.0.2.1 "},
+	"mac":     {"00:00:5e:00:53:01", "02:aa:bb:cc:dd:ee", "00:00:5E:00:53:01", "0:0:5e:0:53:1", "0000.5e00.5301"},
+	"intf":    {"eth0", "Ethernet1/2", "ethernet1/2", " eth0"},
 }
 
 func pick[T any](rt *rapid.T, xs []T, l string) T {
@@ -841,7 +844,7 @@ func drawCall(rt *rapid.T, b int, kind string) Stmt {
 					m := pick(rt, []string{"WithDSCP", "WithDstIP", "WithDstUDPPort", "WithIPTTL", "WithSrcIP", "WithSrcUDPPort"}, "hmethod")
 					hc := HCall{M: m}
 					if strings.HasSuffix(m, "IP") {
-						hc.S = pick(rt, []string{"2001:db8::2", "2001:db8::3", ""}, "hs")
+						hc.S = pick(rt, []string{"2001:db8::2", "2001:db8::3", "", "2001:DB8::2", "2001:0db8::0003"}, "hs")
 					} else {
 						hc.U = pick(rt, []uint64{0, 1, 63, 6635, 65535}, "hu")
 					}
